@@ -19,6 +19,7 @@ mod suite_fclone;
 mod suite_forest;
 mod suite_fspec;
 mod suite_rt;
+mod suite_repair;
 mod idmap_hist;
 mod idmap_oracle;
 mod suite_idmap;
@@ -58,6 +59,7 @@ fn main() {
         "forest" => suite_forest::run(seed, count, tier, &mut sink),
         "fspec" => suite_fspec::run(seed, count, tier, &mut sink),
         "rt" => suite_rt::run(seed, count, tier, &mut sink),
+        "repair" => suite_repair::run(seed, count, tier, &mut sink),
         "exec-forest" => suite_forest::exec_stdin(&mut sink),
         "idmap" => suite_idmap::run(seed, count, tier, &mut sink),
         "axes" => suite_axes::run(seed, count, tier, &mut sink),
